@@ -46,7 +46,12 @@ SPEC = {
              "closed).  The kernel reaches its output by populate (z << ...) or, for a quarter of the kernels, by direct reference "
              "(z_x.getPayloadRef(coord) in the body of the loop over each output rank).  Each operand is built from its values, "
              "or written by an earlier populate kernel, or already read by an earlier run of the kernel (operand histories, "
-             "applied before the session opens, identically for the run without collection).  Non-trivial = the kernel executes at least 2 leaf bodies with "
+             "applied before the session opens, identically for the run without collection).  Every registration of the kernel "
+             "under test (generated and fiber-operator / lookup kernels) is kept in its file, in memory (consumable=True, read back "
+             "with consumeTrace before endCollect), or both - registered file-first or memory-first; the iteration count is checked "
+             "on every copy (numIters of the file; use rows of the consumed list) and consumed traces must repeat across sessions.  "
+             "In two-finger kernels any non-leading operand of a co-iteration may call the rank it contributes by a name of its own "
+             "(A[M,K] & B[K_B]); loop ranks and registrations keep the leading operand's names.  Non-trivial = the kernel executes at least 2 leaf bodies with "
              "collection on and at least one rank is traced; distinct = distinct case.  Plus hand-written kernels of the same "
              "Einsum family in the library's other idioms: (a) projection-driven and (b) n-ary co-iteration kernels, (c) kernels "
              "whose innermost rank is handled by one fiber-level operator per row (fiber * fiber, fiber + fiber, fiber *= fiber, "
@@ -63,7 +68,10 @@ SPEC = {
                              "nary_runs": 60, "conv_runs_with_prebuilt_projections": 20, "fiberop_runs": 60,
                              "fiberop_elementwise_ops": 400, "lookup_runs": 60, "lookup_kernel_ops": 400,
                              "output_by_reference_runs": 40, "operand_history_runs": 120, "operand_history_runs_leader_follower": 30,
-                             "consumable_sessions": 50, "consumable_sessions_left_open": 30}},
+                             "consumable_sessions": 50, "consumable_sessions_left_open": 30,
+                             "traces_in_file_then_memory": 300, "traces_in_memory_then_file": 300, "traces_in_memory_only": 300,
+                             "in_memory_iter_counts_checked": 150, "operand_own_rank_name_runs": 30,
+                             "operand_own_rank_name_runs_uncompressed": 8}},
     "assumptions": [
         "num_cached_uses is configuration, not session state: it is set to the same value before every run of the kernel under test",
         "counting rule for adds follows the documented choice: an accumulate into a zero-valued box is an update, not an add",
@@ -73,6 +81,8 @@ SPEC = {
         "fiber *= fiber also empties the left operand's elements outside the intersection; whether emptying is a counted update is not fixed by the statement, so for that form only the multiply and add counts are compared",
         "a kernel that raises with collection off but completes with collection on (or the reverse) counts as producing different results",
         "a session with an unconsumed consumable trace stays open when its endCollect() refuses (documented assertion); the next beginCollect() must still start clean",
+        "an in-memory (consumable) trace holds one heading row (column names) followed by one row per use; the kernel's author consumes it once, after the loop nest and before endCollect()",
+        "the rank id of a co-iteration is the leading operand's (library convention, fibers[0] / self); the other operands' rank ids are free",
         "fiber-with-scalar value-returning operators (fiber * s, s + fiber, ...) are not generated: they compute on unboxed values, so nothing they do is a payload operation (observed, not claimed; see FIBER_FORMS_GUARDED)",
     ],
 }
@@ -128,6 +138,19 @@ def generate(rng, tier, shard, nshards, mon):
                     if rng.random() < 0.35:
                         fm.append([name, kernels.rid(x)])
             spec["fmts"] = fm
+        # operand rank names: a co-iteration takes its rank from its leading operand, so any other operand may call the
+        # rank it contributes something else (A[M,K] & B[J]); the loop ranks - and the registrations - are unchanged
+        if spec["style"] == "two-finger" and rng.random() < 0.5:
+            al = []
+            for x in lv:
+                part = [name for name, idx in spec["ops"] if x in kernels.loop_vars_of(idx, spec)]
+                al += [[name, kernels.rid(x)] for name in part[1:] if rng.random() < 0.5]
+            if al:
+                spec["alias"] = al
+                # such an operand is as likely as any other to be stored in uncompressed format
+                if not spec.get("zref"):
+                    fm = spec.get("fmts") or []
+                    spec["fmts"] = fm + [x for x in al if x not in fm and rng.random() < 0.5]
         zl = sorted(kernels.loop_vars_of(spec["out"], spec), key=lv.index)
         if zl and rng.random() < (0.8 if len(zl) > 1 else 0.4):
             from fvmon import gen
@@ -161,7 +184,8 @@ def generate(rng, tier, shard, nshards, mon):
                 else:
                     e["src"], e["dst"] = ranks[0], "Q"
             earlier.append(e)
-        yield {"spec": spec, "traces": traces, "earlier": earlier, "ncu": rng.choice([2, 3, 7, 1000])}
+        yield {"spec": spec, "traces": traces, "earlier": earlier, "ncu": rng.choice([2, 3, 7, 1000]),
+               "stores": _rand_stores(rng, traces)}
 
 
 VALS = [1, 2, 3, -1, -2, 4]
@@ -183,6 +207,52 @@ FIBER_FORMS_GUARDED = ["mul-scalar", "rmul-scalar", "add-scalar", "radd-scalar"]
 # key lookup-kernel-under-collection:raised:AssertionError:getPayloadRef)
 LOOKUPS = ["getPayload", "getPayload", "getPayload-noalloc", "getPayload-point", "getPayloadRef-scatter"]
 LOOKUPS_GUARDED = []
+
+
+# where a registered trace is kept: in its file (Metrics.trace(rank, type_)), in memory (consumable=True, read back with
+# Metrics.consumeTrace before the session closes), or both - registered in either order
+STORES = ["file", "file", "file+mem", "mem+file", "mem"]
+
+
+def _rand_stores(rng, traces):
+    """One storage per registration of `traces` (None: every trace in its file only)."""
+    if not traces or rng.random() < 0.45:
+        return None
+    return [rng.choice(STORES) for _ in traces]
+
+
+def _register(traces, stores):
+    for j, (r, tt) in enumerate(traces):
+        for where in (stores[j] if stores else "file").split("+"):
+            Metrics.trace(r, type_=tt, consumable=(where == "mem"))
+
+
+def _consume(traces, stores):
+    """Read back every in-memory trace of the session (as the kernel's author must before endCollect())."""
+    out = {}
+    for j, (r, tt) in enumerate(traces):
+        if stores and "mem" in stores[j]:
+            out[f"{r}-{tt}"] = [list(row) for row in Metrics.consumeTrace(r, tt)]
+    return out
+
+
+def _has_file(stores, j):
+    return not stores or "file" in stores[j]
+
+
+def _mem_rows(rows):
+    """Number of uses recorded in a consumed trace (its first row is the heading: column names)."""
+    return sum(1 for row in rows if not (row and isinstance(row[0], str)))
+
+
+def _count_stores(mon, stores):
+    for st in stores or []:
+        if st == "file+mem":
+            mon.count("traces_in_file_then_memory")
+        elif st == "mem+file":
+            mon.count("traces_in_memory_then_file")
+        elif st == "mem":
+            mon.count("traces_in_memory_only")
 
 
 def _rand_traces(rng, ranks):
@@ -209,6 +279,7 @@ def _gen_fiberop(rng):
     case = {"kind": "fiberop", "form": form, "M": M, "K": K, "out": rng.choice(["m", "m", "mk"]),
             "a": gen.rand_nest(rng, [M, K], rng.choice([0.3, 0.6, 0.9, 1.0]), 0, VALS),
             "traces": _rand_traces(rng, ["M", "K"]), "ncu": rng.choice([2, 3, 1000])}
+    case["stores"] = _rand_stores(rng, case["traces"])
     if form.endswith("scalar"):
         case["s"] = rng.choice([2, 3, -1, 2, 0])
     else:
@@ -225,11 +296,13 @@ def _gen_lookup(rng):
     if lookup == "getPayload-point" and C == 0:
         C = rng.randint(1, 3)
     di, df = rng.choice([0.0, 0.4, 0.7, 1.0]), rng.choice([0.3, 0.7, 1.0])
-    return {"kind": "lookup", "W": W, "S": S, "C": C, "lookup": lookup, "order": rng.choice(["qs", "sq"]),
+    case = {"kind": "lookup", "W": W, "S": S, "C": C, "lookup": lookup, "order": rng.choice(["qs", "sq"]),
             "skipzero": rng.random() < 0.4,
             "i": gen.rand_nest(rng, ([C] if C else []) + [W], di, 0, VALS),
             "f": gen.rand_nest(rng, ([C] if C else []) + [S], df, 0, VALS),
             "traces": _rand_traces(rng, ["Q", "S", "W"] + (["C"] if C else [])), "ncu": rng.choice([2, 3, 1000])}
+    case["stores"] = _rand_stores(rng, case["traces"])
+    return case
 
 
 def _counter():
@@ -276,6 +349,16 @@ def _produced(t):
 
 
 def _build(spec):
+    """_build_hist + the operands' own rank names (spec["alias"]: [operand name, rank id] -> that rank is called
+    <rank id>_<operand name> in the operand tensor)."""
+    tensors, Z, lvars, zl = _build_hist(spec)
+    for name, r in spec.get("alias") or []:
+        t = tensors[name]
+        t.setRankIds([f"{x}_{name}" if x == r else x for x in t.getRankIds()])
+    return tensors, Z, lvars, zl
+
+
+def _build_hist(spec):
     """kernels.build + the operands' histories (spec["ophist"]: operand name -> "produced" | "used")."""
     hist = spec.get("ophist") or {}
     if not hist:
@@ -384,14 +467,13 @@ def _read_files(prefix):
     return out
 
 
-def _session(spec, prefix, traces, ncu, tap=None, abandon_after=None):
+def _session(spec, prefix, traces, ncu, tap=None, abandon_after=None, stores=None):
     """Run one collection session of a kernel.  Returns dict(dump, files, bodies, zsnap, leaves)."""
     tensors, Z, lvars, zl = _build(spec)
     obs = _Bodies()
     Metrics.setNumCachedUses(ncu)
     Metrics.beginCollect(prefix)
-    for r, tt in traces:
-        Metrics.trace(r, type_=tt)
+    _register(traces, stores)
     if tap is not None:
         tap.reset()
         tap.active = True
@@ -413,9 +495,10 @@ def _session(spec, prefix, traces, ncu, tap=None, abandon_after=None):
     finally:
         if tap is not None:
             tap.active = False
+    mem = _consume(traces, stores)
     Metrics.endCollect()
     dump = Metrics.dump()
-    return {"dump": {k: dict(v) for k, v in (dump or {}).items()}, "dump_object": dump, "files": _read_files(prefix), "bodies": dict(obs.per_rank),
+    return {"dump": {k: dict(v) for k, v in (dump or {}).items()}, "dump_object": dump, "files": _read_files(prefix), "bodies": dict(obs.per_rank), "mem": mem,
             "zsnap": snap_values(Z), "leaves": obs.leaves, "tally": dict(obs.tally)}
 
 
@@ -625,13 +708,13 @@ METRICS = ("payload_mul", "payload_add", "payload_update")
 def _begin(case, prefix):
     Metrics.setNumCachedUses(case["ncu"])
     Metrics.beginCollect(prefix)
-    for r, tt in case["traces"]:
-        Metrics.trace(r, type_=tt)
+    _register([tuple(t) for t in case["traces"]], case.get("stores"))
 
 
-def _end(prefix):
+def _end(case, prefix):
+    mem = _consume([tuple(t) for t in case["traces"]], case.get("stores"))
     Metrics.endCollect()
-    return {k: dict(v) for k, v in (Metrics.dump() or {}).items()}, _read_files(prefix)
+    return {k: dict(v) for k, v in (Metrics.dump() or {}).items()}, _read_files(prefix), mem
 
 
 def _fiberop(case, prefix, collect):
@@ -689,7 +772,7 @@ def _fiberop(case, prefix, collect):
                 z_x += t
     res = {"bodies": bodies}
     if collect:
-        res["dump"], res["files"] = _end(prefix)
+        res["dump"], res["files"], res["mem"] = _end(case, prefix)
     res["z"] = content(z_t, 0)
     return res
 
@@ -814,7 +897,7 @@ def _lookup(case, prefix, collect):
             inner(i_w, f_s, c)
     res = {"bodies": bodies, "tally": tally}
     if collect:
-        res["dump"], res["files"] = _end(prefix)
+        res["dump"], res["files"], res["mem"] = _end(case, prefix)
     res["z"] = content(o_t, 0)
     return res
 
@@ -929,12 +1012,21 @@ def _run_handwritten(case, mon):
                       f"Metrics reports {metric}={comp.get(metric, 0)}, Payload operator executions observed in the session "
                       f"amount to {tapped[metric]} ({dict(tap.counts)}); {what}")
         mon.check(not (set(comp) - set(METRICS)), "exactness:unknown-metric", f"unexpected Compute metrics {set(comp) - set(METRICS)}")
-        for r, tt in case["traces"]:
+        stores = case.get("stores")
+        _count_stores(mon, stores)
+        for j, (r, tt) in enumerate(case["traces"]):
             if tt != "iter" or r == "K" or (r == "Q" and flavour != "getPayloadRef"):
                 # K: also iterated implicitly inside the fiber-level operator; Q: driven by the dense (shape) iterator
                 continue
             fn = f"{prefix}-{r}-iter.csv"
             wb = want_bodies.get(r, 0)
+            if f"{r}-iter" in r_on["mem"]:
+                mon.count("in_memory_iter_counts_checked")
+                got = _mem_rows(r_on["mem"][f"{r}-iter"])
+                mon.check(got == wb, "iters:count:in-memory-trace",
+                          f"the consumed in-memory iter trace of rank {r} holds {got} uses, loop bodies executed at that rank: {wb}; {what}")
+            if not _has_file(stores, j):
+                continue
             if not os.path.exists(fn):
                 mon.check(wb == 0, "iters:trace-file-missing", f"rank {r} executed {wb} loop bodies but has no iter trace file; {what}")
                 continue
@@ -955,6 +1047,8 @@ def _run_handwritten(case, mon):
         mon.check(r2["dump"] == r_on["dump"], "isolation:dump:repeated", f"dump {r2['dump']} differs from the first session's {r_on['dump']}; {what}")
         mon.check(r2["files"] == r_on["files"], "isolation:trace-files:content:repeated",
                   f"trace files differ from the first session's: {[k for k in sorted(set(r2['files']) | set(r_on['files'])) if r2['files'].get(k) != r_on['files'].get(k)][:3]}; {what}")
+        mon.check(r2["mem"] == r_on["mem"], "isolation:in-memory-traces:repeated",
+                  f"consumed in-memory traces differ from the first session's: {[k for k in sorted(r_on['mem']) if r2['mem'].get(k) != r_on['mem'][k]][:3]}; {what}")
         mon.check(r2["z"] == r_off["z"], "isolation:output:repeated", f"{what}: output differs in a later session")
         if n_el >= 2:
             mon.nontrivial()
@@ -976,13 +1070,15 @@ def run_case(case, mon):
         return
     spec = case["spec"]
     traces = [tuple(t) for t in case["traces"]]
+    stores = case.get("stores")
     ncu = case["ncu"]
     tap = _counter()
     tmp = tempfile.mkdtemp(prefix="fv15-")
     prefix = os.path.join(tmp, "s")
     try:
         what = (f"kernel {spec['ops']}->{spec['out']!r} order={spec['order']} style={spec['style']} tiles={spec['tiles']} "
-                f"output-by-reference={bool(spec.get('zref'))} operand-histories={spec.get('ophist') or {}}")
+                f"output-by-reference={bool(spec.get('zref'))} operand-histories={spec.get('ophist') or {}} "
+                f"operand-rank-names={spec.get('alias') or []} formats={spec.get('fmts') or []}")
         off_exc = None
         try:
             # reference: collection off
@@ -997,7 +1093,7 @@ def run_case(case, mon):
             off_exc = e
         try:
             # (i) + (ii): collection on, tapped
-            s0 = _session(spec, prefix, traces, ncu, tap=tap)
+            s0 = _session(spec, prefix, traces, ncu, tap=tap, stores=stores)
         except BaseException as e:      # noqa
             if isinstance(e, KeyboardInterrupt):
                 raise
@@ -1014,6 +1110,10 @@ def run_case(case, mon):
                           f"{what} traces={traces} runs with collection on but raised {type(off_exc).__name__}: {off_exc} with collection off")
             return
         mon.count("differential_runs")
+        if spec.get("alias"):
+            mon.count("operand_own_rank_name_runs")
+            if any([n, r] in [list(a) for a in spec["alias"]] for n, r in spec.get("fmts") or []):
+                mon.count("operand_own_rank_name_runs_uncompressed")
         if spec.get("zref"):
             mon.count("output_by_reference_runs")
         if spec.get("ophist"):
@@ -1051,11 +1151,20 @@ def run_case(case, mon):
             part = [n for n, idx in spec["ops"] if v in kernels.loop_vars_of(idx, spec)]
             if len(part) == 1 and v not in zl_ and (part[0], kernels.rid(v)) in fm:
                 dense_driven.add(kernels.rid(v))
-        for r, tt in traces:
+        _count_stores(mon, stores)
+        for j, (r, tt) in enumerate(traces):
             if tt != "iter" or r in dense_driven:
                 continue
             fn = f"{prefix}-{r}-iter.csv"
             want = s0["bodies"].get(r, 0)
+            if f"{r}-iter" in s0["mem"]:
+                mon.count("in_memory_iter_counts_checked")
+                got = _mem_rows(s0["mem"][f"{r}-iter"])
+                mon.check(got == want, "iters:count:in-memory-trace",
+                          f"the consumed in-memory iter trace of rank {r} holds {got} uses, loop bodies executed at that rank: {want} "
+                          f"(kept in {stores[j]})")
+            if not _has_file(stores, j):
+                continue
             if not os.path.exists(fn):
                 mon.check(want == 0, "iters:trace-file-missing", f"rank {r} executed {want} loop bodies but has no iter trace file")
                 continue
@@ -1072,7 +1181,7 @@ def run_case(case, mon):
                     tr = [(kernels.rid(v), r2.choice(TRACE_TYPES)) for v in e["spec"]["order"] if r2.random() < 0.7]
                     _session(e["spec"], prefix, tr, r2.choice([2, 5, 1000]))
                 elif k == "kernel-same-traces":
-                    _session(e["spec"], prefix, traces, ncu)
+                    _session(e["spec"], prefix, traces, ncu, stores=stores)
                 elif k == "threshold":
                     _session(e["spec"], prefix, [], 2)
                 elif k == "abandoned":
@@ -1098,8 +1207,8 @@ def run_case(case, mon):
                   f"the object Metrics.dump() returned for the first session now reads {kept}, it read {s0['dump']} "
                   f"(later sessions {[x['kind'] for x in case['earlier']]})")
         try:
-            s1 = _session(spec, prefix, traces, ncu)
-            s2 = _session(spec, prefix, traces, ncu)
+            s1 = _session(spec, prefix, traces, ncu, stores=stores)
+            s2 = _session(spec, prefix, traces, ncu, stores=stores)
         except BaseException as e:      # noqa
             if isinstance(e, KeyboardInterrupt):
                 raise
@@ -1112,7 +1221,7 @@ def run_case(case, mon):
             mon.count("dump_compares")
             mon.check(s["dump"] == s0["dump"], f"isolation:dump:{tag}",
                       f"dump {s['dump']} differs from the first session's {s0['dump']} ({[x['kind'] for x in case['earlier']]})")
-            mine = {f"s-{r}-{tt}.csv" for r, tt in traces}
+            mine = {f"s-{r}-{tt}.csv" for j, (r, tt) in enumerate(traces) if _has_file(stores, j)}
             f_now = {k: v for k, v in s["files"].items() if k in mine}
             f_first = {k: v for k, v in s0["files"].items() if k in mine}
             if f_now != f_first:
@@ -1124,6 +1233,9 @@ def run_case(case, mon):
                               f"(earlier sessions {[x['kind'] for x in case['earlier']]})")
             else:
                 mon.count("oracle_evals")
+            mon.check(s["mem"] == s0["mem"], f"isolation:in-memory-traces:{tag}",
+                      f"consumed in-memory traces differ from the first session's: {[k for k in sorted(s0['mem']) if s['mem'].get(k) != s0['mem'][k]][:3]} "
+                      f"(earlier sessions {[x['kind'] for x in case['earlier']]})")
             mon.check(s["zsnap"] == z_off, f"isolation:output:{tag}", "kernel output differs in a later session")
         if s0["leaves"] >= 2 and traces:
             mon.nontrivial()
